@@ -1,14 +1,19 @@
 #!/usr/bin/env python3
-"""seed_matrix.py [seed ids...] : applies every seeded change of /verif/seeded to /repo in turn, runs every claimed check
+"""seed_matrix.py [seed ids...] [--out file] : applies every seeded change of /verif/seeded to /repo in turn, runs every claimed check
 (quick tier) and records which checks report a violation; restores /repo after each. Writes seeded/MATRIX.json."""
 import sys, os, json, subprocess, glob, time
+REPO = os.environ.get("SHEXER_REPO", "/repo")     # a scratch checkout when run inside `vp run --with-repo`
 VERIF = os.path.dirname(os.path.dirname(os.path.abspath(__file__)))
 man = json.load(open(os.path.join(VERIF, "MANIFEST.json")))
 claimed = [c["property_id"] for c in man["checks"]]
 seeds = sorted(os.path.basename(d) for d in glob.glob(os.path.join(VERIF, "seeded", "C*-m*")))
-if len(sys.argv) > 1:
-    seeds = [s for s in seeds if s in sys.argv[1:]]
+args = sys.argv[1:]
 out_path = os.path.join(VERIF, "seeded", "MATRIX.json")
+if "--out" in args:
+    out_path = args[args.index("--out") + 1]
+    args = [a for a in args if a not in ("--out", out_path)]
+if args:
+    seeds = [s for s in seeds if s in args]
 matrix = json.load(open(out_path)) if os.path.exists(out_path) else {}
 
 
@@ -16,10 +21,10 @@ def sh(cmd, **kw):
     return subprocess.run(cmd, shell=True, capture_output=True, text=True, **kw)
 
 
-assert sh("git -C /repo status --short | grep -v '^??'").stdout.strip() == "", "/repo dirty"
+assert sh("git -C %s status --short | grep -v '^??'" % REPO).stdout.strip() == "", REPO + " dirty"
 for sd in seeds:
     patch = os.path.join(VERIF, "seeded", sd, "patch.diff")
-    if sh("git -C /repo apply %s" % patch).returncode != 0:
+    if sh("git -C %s apply %s" % (REPO, patch)).returncode != 0:
         matrix[sd] = {"error": "patch does not apply to the current tree"}
         continue
     row = {}
@@ -33,7 +38,7 @@ for sd in seeds:
             elif r.returncode != 0:
                 row[pid] = "exit %d" % r.returncode
     finally:
-        sh("git -C /repo checkout -- .")
+        sh("git -C %s checkout -- ." % REPO)
     matrix[sd] = {"own_property": sd.split("-")[0], "detected_by": row, "seconds": round(time.time() - t0)}
     json.dump(matrix, open(out_path, "w"), indent=1, sort_keys=True)
     print(sd, row, flush=True)
